@@ -917,7 +917,7 @@ class Bag(DaskMethodsMixin):
         if initial is not no_default:
             return self.reduction(
                 curry(_reduce, binop, initial=initial),
-                curry(_reduce, combine),
+                curry(_reduce_or_initial, combine, initial),
                 split_every=split_every,
                 out_type=out_type,
             )
@@ -2372,6 +2372,15 @@ def _reduce(binop, sequence, initial=no_default):
         return reduce(binop, sequence, initial)
     else:
         return reduce(binop, sequence)
+
+
+def _reduce_or_initial(binop, initial, sequence):
+    # Aggregate step of ``fold(..., initial=initial)``: when every partition is
+    # empty there is nothing to combine and the fold of nothing is ``initial``
+    sequence = list(sequence)
+    if not sequence:
+        return initial
+    return reduce(binop, sequence)
 
 
 def make_group(k, stage):
